@@ -132,6 +132,15 @@ func init() {
 			}}
 			c.runBFS("bfs-smaxage3-age"+oa, sys, 10, nil)
 		}
+		// the origin's Date header (correct, ahead, behind) has no say in the lifetime
+		for _, od := range []string{"0", "+8", "-8"} {
+			cfg := env.BasicConfig(config.CacheConfig{})
+			sys := &keySys{cfg: cfg, cfgKey: "basic", P: 300, originDate: od, events: []keyEvent{
+				{Name: fmt.Sprintf("GET(origin:max-age=2,Date=now%s)", od), Kind: "get", Ans: "cacheable", T: 2},
+				{Name: "tick+1", Kind: "tick", D: 1},
+			}}
+			c.runBFS("bfs-T2-date"+od, sys, 9, nil)
+		}
 		for _, kind := range []string{"ttl", "lazy"} {
 			cfg := env.BasicConfig(config.CacheConfig{Store: "fault://c04" + kind})
 			sys := &keySys{cfg: cfg, cfgKey: "c04store" + kind, P: 300, store: kind, events: []keyEvent{
